@@ -224,9 +224,20 @@ def info_sx(info, top):
         _opt(info.get("instance_id")) if top else "N", _opt(info.get("offset")), _opt(info.get("bit")), _opt(info.get("array")), st)
 
 
+def _info_sx_safe(i):
+    """a definition the renderer cannot walk (a name of None, a missing key: never the case for a project of the generator)
+    is rendered as a marker, so that it shows up as a difference instead of stopping the check"""
+    try:
+        return info_sx(i, True)
+    except sx.Unrenderable:
+        raise
+    except (TypeError, KeyError, AttributeError, ValueError) as e:
+        return "(ti MALFORMED-DEFINITION %s)" % type(e).__name__
+
+
 def tags_sx(d):
     return "ok (cfg %s %s) (tags %s)" % (_b(d._cfg["use_instance_ids"]), _b(d._micro800),
-                                         " ".join("(%s %s)" % (sx.name(n), info_sx(i, True)) for n, i in d.tags.items()))
+                                         " ".join("(%s %s)" % (sx.name(n if isinstance(n, str) else repr(n)), _info_sx_safe(i)) for n, i in d.tags.items()))
 
 
 # ------------------------------------------------------------------ scenario generation
@@ -1101,6 +1112,43 @@ def gen_open_setup(rng):
 def open_pair_of(model, scn, cfg):
     faults = {(k, n): how for k, n, how in cfg["faults"]}
     return OpenPair(model, scn, cfg["path"], cfg["init_tags"], cfg["program_tags"], bytes.fromhex(cfg["rnd"]), faults)
+
+
+def run_reconnect(ctx, model, focus):
+    """one driver object across connections: open(), close(), the controller gets another project (an online edit or a
+    download: same device, same program name), open() again — `tags` is the project that is in the controller NOW"""
+    from pycomm3 import LogixDriver
+    rng = ctx.rng
+    stream = "ld-reconnect"
+    for i in range(ctx.budget(10, 80)):
+        p1 = lg.gen_project(rng)
+        p2 = lg.gen_project(rng)
+        p2["rev"] = p1["rev"]
+        p2["micro800"] = p1.get("micro800")
+        prog = rng.random() < 0.8
+        d = LogixDriver("10.0.0.1", init_program_tags=prog)
+        name = b"2080-LC50" if p1.get("micro800") else b"1756-L83E/B"
+        ctx.case(stream, (stream, i))
+        case = {"seed": ctx.seed, "index": i, "program_tags": prog, "history": "open, close, (project replaced), open"}
+        try:
+            for k, p in enumerate((p1, p2)):
+                scn = fakesock.base_scenario(policy=(True, True, True), major=p["rev"], name=name) + " " + lg.scenario_sx(p)
+                assert model.ask("target.new " + scn) == "ok"
+                d._sock = fakesock.TargetSocket(model, {})
+                core.with_budget(120, d.open)
+                want = sorted(lx.expected_tags(p, prog))
+                have = sorted(d.tags)
+                if have != want:
+                    extra = [t for t in have if t not in want][:3]
+                    missing = [t for t in want if t not in have][:3]
+                    ctx.violation("tags-of-an-earlier-connection" if k else "tags-differ-from-project", dict(case, connection=k),
+                                  "%d tags, the controller has %d; not in the controller: %s; missing: %s" % (len(have), len(want), extra, missing))
+                    break
+                d.close()
+        except BaseException as e:  # noqa
+            if isinstance(e, (KeyboardInterrupt, SystemExit)):
+                raise
+            ctx.count("%s/raised/%s" % (stream, core.exn_class(e)))
 
 
 def run_reupload_pair(ctx, model, focus):
